@@ -364,7 +364,8 @@ impl<'a> Gen<'a> {
                     Val::Usize(self.rng.below(crate::ops::N_FMT_SPECS))
                 } else if op.fname.ends_with("_n") {
                     // the iterator length (index into ITER_LENS): mostly short, one in four from the whole list
-                    Val::Usize(if self.rng.chance(1, 4) { self.rng.below(crate::ops::ITER_LENS.len()) } else { self.rng.below(crate::c18p::ITER_LENS_SMALL) })
+                    // (under the interpreter only the short ones: 100 003 items cost it minutes)
+                    Val::Usize(if !cfg!(miri) && self.rng.chance(1, 4) { self.rng.below(crate::ops::ITER_LENS.len()) } else { self.rng.below(crate::c18p::ITER_LENS_SMALL) })
                 } else {
                     Val::Usize(self.rng.below(idx_limit.max(1)))
                 }
